@@ -14,7 +14,7 @@ PROP = "C10"
 LEVEL = "exploration"
 FLAVOUR = "plain"
 TIERS = {"quick": (30000, 150), "thorough": (1200000, 3000)}
-RULE_TEXT = ("one run = one chart of the life-cycle family (nested/parallel states with onexit handlers, delayed sends, optional invoked child) "
+RULE_TEXT = ("one run = one chart of the life-cycle family (nested/parallel states with onexit handlers, delayed sends, optional invoked child, which may invoke a grandchild) "
              "driven by one API plan of kind api-order | concurrent | destroy-running | reset-fresh | reset-concurrent under one seeded schedule; "
              "non-trivial = a cancel/reset/destroy was issued while another task was inside or blocked in step(), or before the first step, "
              "or the plan is a reset-fresh pair; distinct = distinct (plan kind, scheduler decision-sequence hash)")
@@ -88,6 +88,20 @@ def lifecycle_chart(rp, with_invoke=True):
         if rp.random() < 0.5:
             c.add(El("transition", {"event": "ct", "target": "cf"}))
         child.add(El("final", {"id": "cf"}))
+        if rp.random() < 0.4:
+            # the child has a running invocation of its own: ending the parent (cancel, leaving the state, reset,
+            # destruction at any moment) has to end the whole chain
+            grand = El("scxml", {"version": "1.0", "datamodel": "null", "initial": "g", "name": "grandchild"})
+            g = grand.add(El("state", {"id": "g"}))
+            goe = g.add(El("onentry"))
+            goe.add(El("send", {"event": "gt", "delay": "%dms" % rp.choice([3, 30, 3600000])}))
+            g.add(El("onexit", children=[El("log", {"label": "x.grandchild.g"})]))
+            if rp.random() < 0.3:
+                g.add(El("transition", {"event": "gt", "target": "gf"}))
+            grand.add(El("final", {"id": "gf"}))
+            ginv = El("invoke", {"type": "scxml", "id": "gkid"})
+            ginv.add(El("content", children=[grand]))
+            c.add(ginv)
         inv = El("invoke", {"type": "scxml", "id": "kid"})
         inv.add(El("content", children=[child]))
         a.add(inv)
